@@ -1,4 +1,5 @@
 // c37: memberlist member table (network/quicmemberlist membersPool) stays consistent.
+// Address identities = memberid() classes; several *net.UDPAddr forms per identity (zones, mapped IPv4, nil IP).
 // Random join / re-join / leave / empty histories over 3 nodes x 3 addresses (+1 unused node, +1 unused
 // address, + joins of an address by another node) through the verif wrapper around the real membersPool,
 // either directly or through a real (not started) Memberlist's join/leave event handlers; every observer is
@@ -26,25 +27,46 @@ const (
 )
 
 var (
-	addrs [nAddrs]*net.UDPAddr
-	nodes [nNodes]base.Address
-	pubs  [nNodes]base.Publickey
+	// variants[i] = different *net.UDPAddr values for which memberid() (the identity the member table uses)
+	// is the same: 4-byte / 16-byte IPv4, IPv4-mapped IPv6, IPv6 zones, nil / empty IP
+	variants [][]*net.UDPAddr
+	idIndex  = map[string]int{} // memberid -> identity index
+	nodes    [nNodes]base.Address
+	pubs     [nNodes]base.Publickey
 )
 
+func udp(ip net.IP, port int, zone string) *net.UDPAddr {
+	return &net.UDPAddr{IP: ip, Port: port, Zone: zone}
+}
+
 func setup() {
-	// 3 nodes x 3 addresses; distinct ip / same port and same ip / distinct port, one IPv6
-	ss := []string{
-		"127.0.0.1:4000", "127.0.0.1:4001", "127.0.0.2:4000",
-		"10.0.0.1:4000", "10.0.0.1:4001", "[::1]:4000",
-		"192.168.0.7:1", "192.168.0.7:10", "192.168.0.71:65535",
-		"127.0.0.3:4000",
+	// 3 nodes x 3 identities + 1 never joined; identities are grouped by the real memberid()
+	table := [][]*net.UDPAddr{
+		{udp(net.IP{127, 0, 0, 1}, 4000, ""), udp(net.IPv4(127, 0, 0, 1), 4000, ""), udp(net.ParseIP("::ffff:127.0.0.1"), 4000, "")},
+		{udp(net.IP{127, 0, 0, 1}, 4001, "")},                                                                    // same ip, other port
+		{udp(net.ParseIP("fe80::1"), 4000, "eth0"), udp(net.ParseIP("fe80::1"), 4000, "eth1"), udp(net.ParseIP("fe80::1"), 4000, "")}, // zones
+		{udp(net.ParseIP("::ffff:10.0.0.1"), 4000, ""), udp(net.IP{10, 0, 0, 1}, 4000, "")},
+		{udp(net.IP{10, 0, 0, 2}, 4000, "")},
+		{udp(net.ParseIP("::1"), 4000, ""), udp(net.ParseIP("::1"), 4000, "lo")},
+		{udp(net.ParseIP("fe80::2"), 4000, "wlan0"), udp(net.ParseIP("fe80::2"), 4000, "eth0")},
+		{udp(nil, 4000, ""), udp(net.IP{}, 4000, "")},                  // no ip
+		{udp(net.IPv4zero, 4000, ""), udp(net.IP{0, 0, 0, 0}, 4000, "")}, // unspecified
+		{udp(net.ParseIP("2001:db8::1"), 65535, "")},                   // never joins
 	}
-	for i := range ss {
-		a, err := net.ResolveUDPAddr("udp", ss[i])
-		if err != nil {
-			panic(err)
+	for _, vs := range table {
+		for _, a := range vs {
+			k := quicmemberlist.VerifMemberID(a)
+			i, ok := idIndex[k]
+			if !ok {
+				i = len(variants)
+				idIndex[k] = i
+				variants = append(variants, nil)
+			}
+			variants[i] = append(variants[i], a)
 		}
-		addrs[i] = a
+	}
+	if len(variants) != nAddrs {
+		panic(fmt.Sprintf("address universe: memberid() yields %d identities, the harness is built for %d", len(variants), nAddrs))
 	}
 	for i := range nodes {
 		nodes[i] = base.SimpleAddress(fmt.Sprintf("node%d", i))
@@ -52,11 +74,15 @@ func setup() {
 	}
 }
 
+// addrOf returns the v-th textual / binary form of identity a.
+func addrOf(a, v int) *net.UDPAddr {
+	vs := variants[a]
+	return vs[((v%len(vs))+len(vs))%len(vs)]
+}
+
 func addrIndex(a *net.UDPAddr) int {
-	for i := range addrs {
-		if addrs[i].IP.Equal(a.IP) && addrs[i].Port == a.Port {
-			return i
-		}
+	if i, ok := idIndex[quicmemberlist.VerifMemberID(a)]; ok {
+		return i
 	}
 	return -1
 }
@@ -73,6 +99,7 @@ func nodeIndex(a base.Address) int {
 type Op struct {
 	Kind string `json:"k"` // set | remove | empty
 	Addr int    `json:"a"`
+	V    int    `json:"v,omitempty"` // which form of the address is used by this op
 	Node int    `json:"n"`
 	Tag  int    `json:"t"`
 	PN   int    `json:"pn"` // probe for MembersLenOthers
@@ -86,12 +113,29 @@ type replay struct {
 
 type mem struct{ addr, node, tag int }
 
-func newMember(addr, node, tag int) quicmemberlist.Member {
-	m, err := quicmemberlist.NewMember("t"+strconv.Itoa(tag), addrs[addr], nodes[node], pubs[node], addrs[addr].String(), true)
+// vmember is a Member with an arbitrary UDP address (NewMember refuses some of them).
+type vmember struct {
+	quicmemberlist.BaseMember
+	addr *net.UDPAddr
+}
+
+func (m vmember) Addr() *net.UDPAddr { return m.addr }
+
+var dummyAddr = udp(net.IP{127, 0, 0, 9}, 1, "")
+
+func newMember(addr, node, tag int) quicmemberlist.Member { return newMemberV(addr, 0, node, tag) }
+
+func newMemberV(addr, v, node, tag int) quicmemberlist.Member {
+	a := addrOf(addr, v)
+	name := "t" + strconv.Itoa(tag)
+	if m, err := quicmemberlist.NewMember(name, a, nodes[node], pubs[node], "", true); err == nil {
+		return m
+	}
+	b, err := quicmemberlist.NewMember(name, dummyAddr, nodes[node], pubs[node], "", true)
 	if err != nil {
 		panic(err)
 	}
-	return m
+	return vmember{BaseMember: b, addr: a}
 }
 
 func memOf(m quicmemberlist.Member) mem {
@@ -112,7 +156,7 @@ func newImpl(mode string) *impl {
 		return &impl{pool: quicmemberlist.NewVerifMembersPool()}
 	}
 	enc := jsonenc.NewEncoder()
-	bind := addrs[9]
+	bind := addrOf(9, 0)
 	local, err := quicmemberlist.NewMember(bind.String(), bind, nodes[3], pubs[3], bind.String(), true)
 	if err != nil {
 		panic(err)
@@ -155,7 +199,7 @@ func runHistory(res *vh.Result, rp replay, verbose bool) string {
 		var opcode uint64
 		switch op.Kind {
 		case "set":
-			m := newMember(op.Addr, op.Node, op.Tag)
+			m := newMemberV(op.Addr, op.V, op.Node, op.Tag)
 			_, was := ref[op.Addr]
 			if im.srv != nil {
 				before := im.pool.Len()
@@ -176,11 +220,11 @@ func runHistory(res *vh.Result, rp replay, verbose bool) string {
 			_, was := ref[op.Addr]
 			if im.srv != nil {
 				before := im.pool.Len()
-				im.srv.VerifWhenLeft(newMember(op.Addr, 0, 0))
+				im.srv.VerifWhenLeft(newMemberV(op.Addr, op.V, 0, 0))
 				ret = im.pool.Len() < before
 			} else {
 				var err error
-				ret, err = im.pool.Remove(addrs[op.Addr])
+				ret, err = im.pool.Remove(addrOf(op.Addr, op.V))
 				if err != nil {
 					fail("remove-error", at+err.Error())
 				}
@@ -203,7 +247,7 @@ func runHistory(res *vh.Result, rp replay, verbose bool) string {
 		var emask, fmask uint64
 		var entries []uint64
 		for a := 0; a < nAddrs; a++ {
-			ex := im.pool.Exists(addrs[a])
+			ex := im.pool.Exists(addrOf(a, i+a))
 			if ex {
 				emask |= 1 << uint(a)
 			}
@@ -211,10 +255,10 @@ func runHistory(res *vh.Result, rp replay, verbose bool) string {
 			if ex != present {
 				fail("exists-mismatch", at+fmt.Sprintf("Exists(addr %d)=%v but present=%v", a, ex, present))
 			}
-			if im.srv != nil && im.srv.Exists(addrs[a]) != present {
+			if im.srv != nil && im.srv.Exists(addrOf(a, i+a+1)) != present {
 				fail("exists-mismatch", at+fmt.Sprintf("Memberlist.Exists(addr %d)=%v but present=%v", a, !present, present))
 			}
-			gm, found := im.pool.Get(addrs[a])
+			gm, found := im.pool.Get(addrOf(a, i+2*a))
 			if gm != nil {
 				g := memOf(gm)
 				entries = append(entries, uint64(2*(a+16*(g.node+4*g.tag))))
@@ -306,7 +350,7 @@ func runHistory(res *vh.Result, rp replay, verbose bool) string {
 				fail("traverse-count", at+fmt.Sprintf("Memberlist.Members visits %d members, present: %d", cnt, len(ref)))
 			}
 		}
-		ol, oo, of := im.pool.MembersLenOthers(nodes[op.PN], addrs[op.PA])
+		ol, oo, of := im.pool.MembersLenOthers(nodes[op.PN], addrOf(op.PA, i+op.V+1))
 		{
 			wl, wo, wf := 0, 0, false
 			for _, m := range ref {
@@ -407,6 +451,7 @@ func genHistory(r *vh.Rand, tag *int) replay {
 			op.Kind = "empty"
 			present = map[int]bool{}
 		}
+		op.V = r.Intn(4)
 		if r.Chance(1, 2) { // probe the member just touched
 			op.PA = op.Addr
 			if op.Kind == "set" {
@@ -421,6 +466,8 @@ func genHistory(r *vh.Rand, tag *int) replay {
 func corpus() []replay {
 	s := func(a, n, t int) Op { return Op{Kind: "set", Addr: a, Node: n, Tag: t, PN: n, PA: a} }
 	rm := func(a int) Op { return Op{Kind: "remove", Addr: a, PN: a / 3, PA: a} }
+	sv := func(a, v, n, t int) Op { return Op{Kind: "set", Addr: a, V: v, Node: n, Tag: t, PN: n, PA: a} }
+	rmv := func(a, v int) Op { return Op{Kind: "remove", Addr: a, V: v, PN: a / 3, PA: a} }
 	var out []replay
 	for _, mode := range []string{"pool", "memberlist"} {
 		out = append(out,
@@ -431,6 +478,11 @@ func corpus() []replay {
 			replay{mode, []Op{s(0, 0, 1), s(0, 1, 2), rm(0)}},               // the address re-joins as another node
 			replay{mode, []Op{s(0, 0, 1), s(3, 1, 2), {Kind: "empty"}, s(0, 0, 3)}},
 			replay{mode, []Op{rm(0), s(0, 0, 1), rm(0), rm(0)}},
+			// addresses whose textual forms differ: zoned IPv6 leaves / re-joins under another zone,
+			// IPv4 vs IPv4-mapped, nil vs empty IP, unspecified
+			replay{mode, []Op{s(1, 0, 1), sv(2, 0, 0, 2), rmv(2, 0), sv(2, 0, 0, 3), sv(2, 1, 0, 4), rmv(2, 2), sv(2, 2, 0, 5), rmv(2, 1)}},
+			replay{mode, []Op{sv(0, 0, 0, 1), sv(0, 1, 0, 2), sv(0, 2, 0, 3), rmv(0, 1), sv(3, 0, 1, 4), sv(3, 1, 1, 5), rmv(3, 0)}},
+			replay{mode, []Op{sv(7, 0, 2, 1), sv(7, 1, 2, 2), sv(8, 0, 2, 3), sv(8, 1, 2, 4), rmv(7, 1), sv(6, 0, 2, 5), sv(6, 1, 2, 6), rmv(8, 0), rmv(6, 0), sv(5, 1, 1, 7), rmv(5, 0)}},
 		)
 	}
 	return out
@@ -454,9 +506,9 @@ func concurrent(res *vh.Result, r *vh.Rand, rounds int) {
 				for i := 0; i < 60; i++ {
 					a := rr.Intn(9)
 					if rr.Chance(3, 5) {
-						im.srv.VerifWhenJoined(newMember(a, a/3, g*1000+i+1))
+						im.srv.VerifWhenJoined(newMemberV(a, rr.Intn(4), a/3, g*1000+i+1))
 					} else {
-						im.srv.VerifWhenLeft(newMember(a, 0, 0))
+						im.srv.VerifWhenLeft(newMemberV(a, rr.Intn(4), 0, 0))
 					}
 				}
 			}(g)
@@ -492,9 +544,9 @@ func concurrent(res *vh.Result, r *vh.Rand, rounds int) {
 		}
 		for a := 0; a < nAddrs; a++ {
 			_, present := table[a]
-			gm, found := im.pool.Get(addrs[a])
-			if found != present || im.pool.Exists(addrs[a]) != present || (gm != nil) != present {
-				failc(res, "concurrent-get", fmt.Sprintf("addr %d: Get found=%v Exists=%v, in table=%v", a, found, im.pool.Exists(addrs[a]), present), rp)
+			gm, found := im.pool.Get(addrOf(a, a))
+			if found != present || im.pool.Exists(addrOf(a, a+1)) != present || (gm != nil) != present {
+				failc(res, "concurrent-get", fmt.Sprintf("addr %d: Get found=%v Exists=%v, in table=%v", a, found, im.pool.Exists(addrOf(a, a+2)), present), rp)
 			}
 		}
 		res.Evaluations++
@@ -505,7 +557,7 @@ func concurrent(res *vh.Result, r *vh.Rand, rounds int) {
 func main() {
 	o := vh.ParseFlags()
 	setup()
-	res := vh.NewResult("random join/re-join/leave/empty histories (1..40 ops) over 9 addresses x 3 nodes (+1 unused each; 1/7 of joins under a foreign node), directly on membersPool or through Memberlist.whenJoined/whenLeft; all observers after every op vs reference map addr->last joined member; non-trivial = history contains a re-join of a present address or a node with >= 2 present members")
+	res := vh.NewResult("random join/re-join/leave/empty histories (1..40 ops) over 9 address identities x 3 nodes (+1 unused each; 1/7 of joins under a foreign node; every op and every observer uses one of several forms of the address with the same memberid: 4/16-byte IPv4, IPv4-mapped, IPv6 zones, nil/empty/unspecified IP, same IP other port), directly on membersPool or through Memberlist.whenJoined/whenLeft; all observers after every op vs reference map addr->last joined member; non-trivial = history contains a re-join of a present address or a node with >= 2 present members")
 	cases := &vh.Cases{Import: "From MV Require Import C37.Model.\nOpen Scope N_scope.", Type: "list (list N)", CheckFn: "check", Shard: 100}
 	if o.Replay != "" {
 		var rp replay
